@@ -172,6 +172,80 @@ func closeScenario(kind string, capacity, before, bound int) *vsched.Scenario {
 	}
 }
 
+// selfCloseScenario: the shutdown-message pattern. The actor closes itself from its effect (on message 1 of
+// sender 0) while other senders are submitting: Close returns, what was processed was processed once and in
+// per-sender order, and what is sent after the effect has returned from Close never runs.
+func selfCloseScenario(capacity, others, bound int) *vsched.Scenario {
+	return &vsched.Scenario{
+		Name:  fmt.Sprintf("actor-self-close/cap%d/others%d", capacity, others),
+		Bound: bound,
+		Body: func() {
+			var a *fpgo.ActorDef[amsg]
+			a = fpgo.ActorNewByOptionsGenerics(func(self *fpgo.ActorDef[amsg], m amsg) {
+				vsched.Event("enter", m.s, m.k)
+				if m.s == 0 && m.k == 1 {
+					self.Close()
+					vsched.Event("closed")
+				}
+				vsched.Event("leave", m.s, m.k)
+			}, make(chan amsg, capacity), map[string]interface{}{})
+			for s := 1; s <= others; s++ {
+				s := s
+				vsched.GoNamed(fmt.Sprintf("sender%d", s), func() {
+					a.Send(amsg{s, 0})
+					a.Send(amsg{s, 1})
+				})
+			}
+			a.Send(amsg{0, 0})
+			a.Send(amsg{0, 1})
+			a.Send(amsg{0, 2})
+		},
+		Check: func(r *vsched.Result) []vsched.Failure {
+			fs := e1.Basic("C12", "actor-self-close", r, nil)
+			if len(r.Panics) > 0 || len(fs) > 0 {
+				return fs
+			}
+			closed := e1.Index(r, "closed")
+			if closed < 0 {
+				return append(fs, e1.Fail("C12|actor-self-close|close-stuck", "Close called from the actor's own effect did not return: %v", r.Events))
+			}
+			depth := 0
+			last := map[int]int{}
+			seen := map[string]int{}
+			for i, e := range r.Events {
+				switch e.Kind {
+				case "enter":
+					if depth > 0 {
+						fs = append(fs, e1.Fail("C12|actor-self-close|overlap", "two messages were being processed at the same time"))
+					}
+					depth++
+					s, k := e.Args[0].(int), e.Args[1].(int)
+					if prev, ok := last[s]; ok && k < prev {
+						fs = append(fs, e1.Fail("C12|actor-self-close|sender-order", "sender %d: message %d processed after message %d", s, k, prev))
+					}
+					last[s] = k
+					seen[fmt.Sprint(s, k)]++
+					if seen[fmt.Sprint(s, k)] > 1 {
+						fs = append(fs, e1.Fail("C12|actor-self-close|duplicate", "message (%d,%d) processed twice", s, k))
+					}
+					if i > closed && !(s == 0 && k == 1) {
+						// processed after Close returned: only what was already in the mailbox buffer may still run
+						if capacity == 0 {
+							fs = append(fs, e1.Fail("C12|actor-self-close|ran-after-close", "message (%d,%d) was processed after Close had returned on an unbuffered mailbox", s, k))
+						}
+					}
+				case "leave":
+					depth--
+				}
+			}
+			if seen["0 2"] > 0 && capacity == 0 {
+				fs = append(fs, e1.Fail("C12|actor-self-close|ran-after-close", "a message sent after the closing message was processed"))
+			}
+			return fs
+		},
+	}
+}
+
 // spawnScenario: children are independent mailboxes registered under their parent; a child of a
 // closed parent is not registered. The parent's effect blocks until its child's effect has run: if
 // the child were served by the parent's mailbox the execution would deadlock.
@@ -444,6 +518,7 @@ func scenarios(tier string) []*vsched.Scenario {
 				handlerScenario(c, 5, 1, 2), actorScenario(c, 5, 1, 2))
 		}
 	}
+	out = append(out, selfCloseScenario(0, 1, b), selfCloseScenario(0, 2, 1), selfCloseScenario(1, 1, b))
 	out = append(out, spawnScenario(false, b), spawnScenario(true, b), payloadScenario(0, 1), payloadScenario(3, 1))
 	for _, c := range []int{0, 2} {
 		out = append(out, askMixScenario("late", c, b), askMixScenario("never", c, b), askMixScenarioT("never", c, 0, b), askMixScenarioT("late", c, -time.Millisecond, b))
